@@ -91,6 +91,14 @@ fn clean_returns_everything_unacked_in_order() {
                     exp.push(Request::Publish(p.clone()));
                 }
             }
+            // a publish parked on an id collision was accepted after all of those and never transmitted: it is handed back
+            // too (C02: held for retransmission), without an id, and no collision stays pending on a table that is empty now
+            // (C07: "a collision is only ever pending while the colliding id is genuinely held")
+            if let Some(p) = &pre.collision {
+                let mut q = p.clone();
+                q.pkid = 0;
+                exp.push(Request::Publish(q));
+            }
             for i in 1..=n {
                 if pre.outgoing_rel.contains(i) {
                     exp.push(Request::PubRel(PubRel::new(i as u16)));
@@ -103,8 +111,8 @@ fn clean_returns_everything_unacked_in_order() {
                 why = "tables not emptied".into();
             } else if st.inflight != 0 {
                 why = format!("inflight {} after clean", st.inflight);
-            } else if st.collision != pre.collision {
-                why = "parked (collision) publish dropped by clean".into();
+            } else if st.collision.is_some() {
+                why = "a collision is still pending although no id is held any more (it can never be resolved)".into();
             } else if st.last_pkid != pre.last_pkid {
                 why = "packet id counter changed".into();
             } else if st.await_pingresp || st.collision_ping_count != 0 {
